@@ -763,6 +763,123 @@ def h2g_flow_case(rng):
     return {"op": "h2g_flow", "vals": vals}
 
 
+# ---- multi-step chains on histograms -----------------------------------------------------------
+
+class RefHist:
+    """reference semantics of a histogram's documented behaviour, in exact arithmetic: scale() is the integral of the
+    bins unless a scale was stored before (computed, set by scale(s), or given by the user); `clean` is False when the
+    stored scale is stale because the contents changed after it was stored (then lena documents that the user must
+    recompute, and nothing is stated about the value)"""
+
+    def __init__(self, hc):
+        self.hc = hc
+        self.bins = [q(v) for v in flat_nested(hc["bins"])]
+        self.nout = q(hc["nout"])
+        self.cache = None if hc.get("scale") is None else q(hc["scale"])
+        self.clean = True
+        self.vols = [_vol(ed) for _, _, ed in ref_cells(hc)]
+
+    def integral(self):
+        return sum(v * b for v, b in zip(self.vols, self.bins))
+
+    def scale_get(self, rc):
+        if self.cache is None or rc:
+            self.cache, self.clean = self.integral(), True
+        return self.cache
+
+    def scale_set(self, s):
+        sc = self.scale_get(False)
+        if sc == 0:
+            return "LenaValueError"
+        self.bins = [b * s / sc for b in self.bins]
+        self.nout = self.nout * s / sc
+        self.cache = s
+        return None
+
+    def nevents(self, incl):
+        return sum(self.bins) + (self.nout if incl else 0)
+
+    def set_nevents(self, n, incl):
+        old = self.nevents(incl)
+        if old == 0:
+            return "LenaValueError"
+        self.bins = [b * n / old for b in self.bins]
+        self.nout = self.nout * n / old
+        if self.cache is not None:
+            self.clean = False
+        return None
+
+    def add(self, other, w):
+        r = RefHist(self.hc)
+        r.bins = [x + w * y for x, y in zip(self.bins, other.bins)]
+        r.nout = self.nout + w * other.nout
+        r.cache, r.clean = None, True
+        return r
+
+
+POW2 = ["1", "2", "4", "1/2", "-2", "1/4", "8"]
+CHAIN_WEIGHTS = ["1", "2", "-1", "1/2"]
+
+
+def chain_case(rng, shape=None):
+    """a multi-step sequence on two histograms with equal edges: scale()/scale(s)/set_nevents/add/get_nevents in
+    random order (operands with computed, set, stale or missing stored scale), observed after every step.  Targets are
+    power-of-two multiples of the current value, so that every float operation of the real code is exact."""
+    shape = shape or rng.choice(SHAPES[:13] + SHAPES)
+    a = gen_hist_pow2(rng, shape)
+    b = gen_hist_pow2(rng, shape)
+    b["edges"] = copy.deepcopy(a["edges"])
+    b["ekind"] = a["ekind"]
+    if rng.random() < 0.25:
+        # a non-zero number of events with a zero integral: bins of different width and sign
+        h0 = zero_integral_hist(rng)
+        w0 = q(h0["edges"]["f"][1])
+        h0 = {"edges": {"f": [enc(F(0)), enc(w0), enc(3 * w0)]}, "bins": [enc(F(2)), enc(F(-1))], "nout": enc(F(1)),
+              "scale": None, "kind": "int", "ekind": "int"}
+        a, b = h0, dict(copy.deepcopy(h0), bins=[enc(F(1)), enc(F(3))])
+    for hc in (a, b):
+        r = rng.random()
+        i = ref_integral(hc)
+        if r < 0.25:
+            hc["scale"] = enc(i)                 # computed before
+        elif r < 0.4:
+            hc["scale"] = enc(i * 2 + 1)         # set by the user / stale
+        elif r < 0.45:
+            hc["scale"] = "0"
+    ref = {"a": RefHist(a), "b": RefHist(b)}
+    steps = []
+    n = rng.randint(2, 7)
+    for _ in range(n):
+        objs = [o for o in ("a", "b", "c") if o in ref]
+        o = rng.choice(objs + (["c", "c"] if "c" in ref else []))
+        r = rng.random()
+        if r < 0.25:
+            st = {"k": "scale_get", "o": o, "rc": rng.random() < 0.3}
+            ref[o].scale_get(st["rc"])
+        elif r < 0.45:
+            cur = ref[o].cache if ref[o].cache is not None else ref[o].integral()
+            ratio = q(rng.choice(POW2))
+            st = {"k": "scale_set", "o": o, "s": enc(ratio * cur if cur != 0 else ratio)}
+            ref[o].scale_set(q(st["s"]))
+        elif r < 0.6:
+            incl = rng.random() < 0.4
+            old = ref[o].nevents(incl)
+            ratio = q(rng.choice(POW2))
+            st = {"k": "set_nevents", "o": o, "n": enc(ratio * old if old != 0 else ratio), "incl": incl}
+            ref[o].set_nevents(q(st["n"]), incl)
+        elif r < 0.7:
+            st = {"k": "nevents", "o": o, "incl": rng.random() < 0.4}
+        else:
+            x, y = rng.choice([("a", "b"), ("a", "b"), ("b", "a"), ("a", "a")] + ([("c", "a"), ("a", "c")] if "c" in ref else []))
+            st = {"k": "add", "x": x, "y": y, "w": rng.choice(CHAIN_WEIGHTS), "tol": rng.choice([None, ["0", "0"]])}
+            ref["c"] = ref[x].add(ref[y], q(st["w"]))
+        steps.append(st)
+    if "c" in ref and rng.random() < 0.8:
+        steps.append({"k": "scale_get", "o": "c", "rc": False})
+        steps.append({"k": "nevents", "o": "c", "incl": False})
+    return {"op": "chain", "a": a, "b": b, "steps": steps}
+
+
 def graph_add_case(rng):
     dim = rng.randint(1, 3)
     coords_names = COORD_NAMES[:dim]
@@ -943,6 +1060,7 @@ MIXTURE = [
     (3, mk_hist_case),
     (3, csv_flow_case),
     (3, h2g_flow_case),
+    (12, chain_case),
     (1, lambda rng: hscale_case(rng, zero_integral_hist(rng), True)),
     (1, lambda rng: nevents_case(rng, gen_hist(rng, _rshape(rng), pattern="zero"), True)),
 ]
@@ -969,6 +1087,8 @@ def gen_cases(ctx):
             yield csv_case(rng, shape)
             yield csv_text_case(rng, shape)
             yield bin_index_case(rng, shape)
+            yield chain_case(rng, shape)
+            yield chain_case(rng, shape)
     # add with edges that are a proper prefix / extension of the other's: every shape x axis x both orders
     for shape in SHAPES:
         for axis in range(len(shape)):
@@ -1217,6 +1337,31 @@ def run_impl(case):
                    "is_graph": isinstance(c, lena.structures.graph)}
         res["same"] = graph_state(a) == sa and graph_state(b) == sb
         return res
+
+    if op == "chain":
+        env = {"a": build_hist(case["a"]), "b": build_hist(case["b"])}
+        obs = []
+        for st in case["steps"]:
+            k = st["k"]
+            try:
+                if k == "scale_get":
+                    obs.append({"r": enc(env[st["o"]].scale(recompute=st["rc"]))})
+                elif k == "scale_set":
+                    env[st["o"]].scale(pynum(st["s"], "float"))
+                    obs.append({"ok": True})
+                elif k == "set_nevents":
+                    env[st["o"]].set_nevents(pynum(st["n"], "float"), include_out_of_range=st["incl"])
+                    obs.append({"ok": True})
+                elif k == "nevents":
+                    obs.append({"r": enc(env[st["o"]].get_nevents(include_out_of_range=st["incl"]))})
+                elif k == "add":
+                    kw = {} if st["tol"] is None else {"edges_rel_tol": pynum(st["tol"][0], "float"),
+                                                        "edges_abs_tol": pynum(st["tol"][1], "float")}
+                    env["c"] = env[st["x"]].add(env[st["y"]], pynum(st["w"], "int"), **kw)
+                    obs.append({"ok": True})
+            except Exception as ex:
+                obs.append({"e": exc_name(ex)})
+        return {"obs": obs, "final": {o: (hist_state(env[o]) if o in env else None) for o in ("a", "b", "c")}}
 
     if op == "csv_flow":
         el = lena.output.ToCSV(separator=case["sep"], header=case["header"], row_end=case["row_end"],
@@ -1529,7 +1674,7 @@ def _spec_requests(case):
 
 def model_requests(case):
     main = _main_requests(case)
-    if case["op"] in ("csv_flow", "h2g_flow"):
+    if case["op"] in ("csv_flow", "h2g_flow", "chain"):
         return main
     return main + (_spec_requests(case) if main else [])
 
@@ -1549,6 +1694,15 @@ def _main_requests(case):
         return [{"op": "csv_text", "h": model_hist(case["h"]), "to_csv": case["to_csv"], "ctx_dup": case["ctx_dup"],
                  "dup": case["dup"], "sep": case["sep"], "header": case["header"], "row_end": case["row_end"],
                  "last_row_end": case["last_row_end"]}]
+    if op == "chain":
+        steps = []
+        for st in case["steps"]:
+            st = dict(st)
+            if st["k"] == "add":
+                tol = st.pop("tol") or [enc(REL_DEFAULT), "0"]
+                st["rel"], st["abs"] = tol
+            steps.append(st)
+        return [{"op": "chain", "a": model_hist(case["a"]), "b": model_hist(case["b"]), "steps": steps}]
     if op == "csv_flow":
         return [{"op": "csv_text", "h": model_hist(v["h"]), "to_csv": v["to_csv"], "ctx_dup": v["ctx_dup"],
                  "dup": case["dup"], "sep": case["sep"], "header": case["header"], "row_end": case["row_end"],
@@ -1769,6 +1923,13 @@ def _compare_main(case, res, replies):
     def diff(what, a, b):
         return None if a == b else f"{op}: {what}: impl {jdump(a)[:300]} vs model {jdump(b)[:300]}"
 
+    if op == "chain":
+        nob = lambda l: [{k: (_nq(v) if k == "r" else v) for k, v in o.items()} for o in l]
+        for k, (x, y) in enumerate(zip(nob(res["obs"]), nob(m["obs"]))):
+            if x != y:
+                return f"chain: step {k} {jdump(case['steps'][k])}: impl {jdump(x)} vs model {jdump(y)}"
+        fin = lambda f: {o: (None if f[o] is None else norm_hist(f[o])) for o in ("a", "b", "c")}
+        return diff("final states", fin(res["final"]), fin(m["final"]))
     if op == "iter_coord":
         if "e" in res or "e" in m:
             return diff("exception", res.get("e"), m.get("e"))
@@ -1951,6 +2112,55 @@ def oracle(case, res):
 
     if op == "mk_hist":
         return None      # construction is C06's subject; here only the correspondence uses it
+
+    if op == "chain":
+        ref = {"a": RefHist(case["a"]), "b": RefHist(case["b"])}
+        for k, (st, ob) in enumerate(zip(case["steps"], res["obs"])):
+            kind, o = st["k"], st.get("o")
+            where = f"step {k} {jdump(st)} of the sequence {jdump([x['k'] + ':' + x.get('o', x.get('x', '')) for x in case['steps']])}"
+            if kind == "add":
+                if "e" in ob:
+                    return f"{where}: add of histograms with equal edges raised {ob['e']}"
+                ref["c"] = ref[st["x"]].add(ref[st["y"]], q(st["w"]))
+                continue
+            h = ref[o]
+            if not h.clean:
+                # the stored scale is stale (contents changed after it was stored): nothing is stated any more
+                # about this object's scale; its later behaviour is compared with the model only
+                if kind in ("scale_get", "scale_set"):
+                    if kind == "scale_get" and st["rc"]:
+                        h.scale_get(True)
+                    else:
+                        return None
+            if kind == "scale_get":
+                want = h.scale_get(st["rc"])
+                if ob.get("r") is None or not is_num(ob["r"]) or q(ob["r"]) != want:
+                    return (f"{where}: scale() returned {ob}, but the integral of the bins of this histogram is "
+                            f"{h.integral()} (stored scale {want})")
+            elif kind == "scale_set":
+                exp = h.scale_set(q(st["s"]))
+                if ob.get("e") != exp:
+                    return f"{where}: scale({st['s']}) gave {ob}, expected {exp or 'no exception'}"
+            elif kind == "set_nevents":
+                exp = h.set_nevents(q(st["n"]), st["incl"])
+                if ob.get("e") != exp:
+                    return f"{where}: set_nevents({st['n']}) gave {ob}, expected {exp or 'no exception'}"
+            elif kind == "nevents":
+                want = h.nevents(st["incl"])
+                if not is_num(ob.get("r")) or q(ob["r"]) != want:
+                    return f"{where}: get_nevents gives {ob}, the contents sum to {want}"
+        # final contents
+        for o, h in ref.items():
+            fin = res["final"][o]
+            if fin is None:
+                return f"histogram {o} is missing at the end"
+            got = [q(v) if is_num(v) else None for v in flat_nested(fin["bins"])]
+            if h.clean or True:
+                if got != h.bins or not is_num(fin["nout"]) or q(fin["nout"]) != h.nout:
+                    if h.clean:
+                        return (f"histogram {o} after {jdump([x['k'] + ':' + x.get('o', x.get('x', '')) for x in case['steps']])}: "
+                                f"bins {fin['bins']}, n_out_of_range {fin['nout']}; expected {[str(v) for v in h.bins]}, {h.nout}")
+        return None
 
     if op in ("csv_flow", "h2g_flow"):
         if "outs" not in res:
@@ -2473,6 +2683,8 @@ def nontrivial(case, res):
         return bool(g["coords"]) and len(g["coords"][0]) >= 2 and not res.get("unchanged", False)
     if op in ("csv_flow", "h2g_flow"):
         return True
+    if op == "chain":
+        return len(case["steps"]) >= 2
     if op == "scale_to":
         return len(case["group"]) >= 2
     if op == "scale_to_call":
